@@ -146,3 +146,12 @@ where
     }
     Ok(())
 }
+
+#[cfg(feature = "verif-hooks")]
+pub mod verif {
+    pub use super::config::SslConfig;
+    pub use super::shadowsocks::verif as shadowsocks;
+    pub use super::template::verif as template;
+    pub use super::trojan::verif as trojan;
+    pub use super::vmess::verif as vmess;
+}
